@@ -55,4 +55,14 @@ CHECKS["C02"] = {
     "parts": [{"bin": "C02_wakeup"}],
 }
 
+CHECKS["C09"] = {
+    "registered": True,
+    "engine": "pmc-rt",
+    "technique": "stateless preemption-bounded exhaustive schedule enumeration of latch / barrier / event / call_once programs on a live 2-worker runtime and on plain OS threads",
+    "level_text": "Every schedule within the deviation bound of every small participant program (latch arrive/wait mixes, barrier phases with arrive_and_wait / arrive+wait / arrive_and_drop and a counting completion function, event waiters incl. a late one, call_once with a throwing first attempt) is executed on the real code; departures are checked against arrival counts and completion counts, body counters against 1, and blocked waiters whose release condition holds show up as stuck executions.",
+    "level_note": "Sequentially consistent interleavings only; 2 workers; 2-3 participants; 2 barrier phases; choice points at atomics on the primitive and the task state words; polling loops (barrier spin wait) stop opening choice points after three identical iterations. The Promela barrier model sketched in DESIGN.md was not built.",
+    "rule": "pmc-rt/pmc-os: participant op mixes (data choices) x all schedules within the deviation bound",
+    "parts": [{"bin": "C09_latch_barrier"}],
+}
+
 PENDING = {}
